@@ -252,6 +252,44 @@ def gen_tree(rng, depth, max_digits=12, max_exp=30, ops="+-*/^", zero_bias=0.08)
         right = gen_tree(rng, depth - 1, max_digits, max_exp, ops, zero_bias)
     return ("bin", op, left, right)
 
+def gen_cancel(rng):
+    """Small trees in which one WIDE term (a literal of 20-130 digits, or a power such as 3^170) occurs twice, once above and once
+    below the line, or once on each side of a sum: x / w * w, (w / b) * (c / w), (a / w) / (c / w), a / w + c / w, w * c / w ... with
+    every sign combination. Cross-cancelling shortcuts in multiplication and division (seed C01-g: the sign taken from the wrong
+    factor when a 257+ bit term cancels) only see such inputs when a whole operand is REPEATED; independent literals never are."""
+    r = rng.random()
+    if r < 0.55:
+        nd = rng.choice([20, 39, 40, 77, 78, 79, 80, 100, 130]) + rng.randint(0, 3)
+        n = rng.randint(10 ** (nd - 1), 10 ** nd - 1)
+        w = lambda sg: ("lit", ("-" if sg < 0 else "") + str(n), Fraction(sg * n))
+    elif r < 0.85:
+        b, e = rng.choice([(3, rng.randint(150, 200)), (2, rng.randint(250, 300)), (7, rng.randint(90, 120)), (10, rng.randint(70, 100)), (3, rng.randint(20, 60))])
+        w = lambda sg, b=b, e=e: ("bin", "^", int_lit(sg * b), int_lit(e | 1))
+    else:
+        from . import boundary as B
+        n = max(2, B.integers(rng))
+        w = lambda sg: ("lit", str(sg * n), Fraction(sg * n))
+    def small():
+        v = rng.choice([1, 2, 3, 7, rng.randint(1, 999), rng.randint(1, 10 ** 12)]) * rng.choice([1, 1, -1])
+        return int_lit(v)
+    sg = lambda: rng.choice([1, 1, -1])
+    a, b, c = small(), small(), small()
+    shapes = [
+        lambda: ("bin", "*", ("bin", "/", w(sg()), b), ("bin", "/", c, w(sg()))),      # (w / b) * (c / w)
+        lambda: ("bin", "*", ("bin", "/", a, w(sg())), ("bin", "/", w(sg()), c)),      # (a / w) * (w / c)
+        lambda: ("bin", "*", ("bin", "/", a, w(sg())), w(sg())),                       # a / w * w
+        lambda: ("bin", "*", w(sg()), ("bin", "/", c, w(sg()))),                       # w * (c / w)
+        lambda: ("bin", "/", ("bin", "/", w(sg()), b), ("bin", "/", w(sg()), c)),      # (w / b) / (w / c)
+        lambda: ("bin", "/", ("bin", "/", a, w(sg())), ("bin", "/", c, w(sg()))),      # (a / w) / (c / w)
+        lambda: ("bin", "/", ("bin", "*", w(sg()), c), w(sg())),                       # w * c / w
+        lambda: ("bin", "/", w(sg()), ("bin", "*", w(sg()), c)),                       # w / (w * c)
+        lambda: ("bin", rng.choice("+-"), ("bin", "/", a, w(sg())), ("bin", "/", c, w(sg()))),   # a / w +- c / w
+        lambda: ("bin", rng.choice("+-"), ("bin", "/", w(sg()), b), ("bin", "/", w(sg()), b)),   # w / b +- w / b
+        lambda: ("bin", rng.choice("+-*/"), w(sg()), w(sg())),                         # w op w
+        lambda: ("bin", "*", ("bin", "/", w(sg()), w(sg())), ("bin", "/", a, b)),      # (w / w) * (a / b)
+    ]
+    return rng.choice(shapes)()
+
 def leaves_of(t, out=None):
     out = [] if out is None else out
     if t[0] == "lit":
